@@ -203,9 +203,16 @@ Proof. exact pg_same_namespace. Qed.
     primary-key changes; serial -> other, generated / identity columns and the schema-level
     statements are covered by the oracle stage [plan] only.  With the C16 repairs (RenameObject through enumIdent, schemaPrefix for every
     DROP INDEX) no statement form is excluded any more; [reference r] leaves out only the NEW
-    name of ALTER TYPE ... RENAME TO, which is a definition and bare by SQL syntax. *)
+    name of ALTER TYPE ... RENAME TO, which is a definition and bare by SQL syntax.
+
+    Round 5: the statement for EVERY change set is FALSE of the skeleton, as of the code
+    (C16_skeleton_refuted, finding C16-serial-enum-type-raw): a column type change between a serial
+    type and an enum type writes the enum type RAW -- alterType's "sequence was dropped" arm uses
+    FormatType(To), the bare type name, neither quoted nor qualified (forward for serial -> enum, in
+    the reverse statement for enum -> serial).  It is proved for every change set without such a
+    column change ([change_ok]); serial <-> integer, inspected sequences are inside. *)
 Theorem C16_skeleton_partial :
-  forall (pg : bool) (cs : list RefSkeleton.change),
+  forall (pg : bool) (cs : list RefSkeleton.change), Forall change_ok cs ->
   forall s r, In s (plan_skel pg cs) -> In r (s_refs s) -> reference r ->
   ref_chain (Some []) r = ref_names r /\
   (forall q, q <> [] -> ref_chain (Some q) r = q :: ref_names r) /\
@@ -214,12 +221,22 @@ Proof. exact skeleton_chains. Qed.
 
 (** and no statement form writes a reference to an existing object through bare [Ident] *)
 Theorem C16_skeleton_no_bare_reference :
-  forall (pg : bool) (cs : list RefSkeleton.change) s n,
-  In s (plan_skel pg cs) -> ~ In (RBare n) (s_refs s).
+  forall (pg : bool) (cs : list RefSkeleton.change) s n, Forall change_ok cs ->
+  In s (plan_skel pg cs) -> ~ In (RBare n) (s_refs s) /\ ~ In (RRaw n) (s_refs s).
 Proof.
-  intros pg cs s n Hs Hn. pose proof (skeleton_refs_qualifying pg cs) as K.
+  intros pg cs s n HC Hs. pose proof (skeleton_refs_qualifying pg cs HC) as K.
   unfold stmts_ok in K. rewrite Forall_forall in K. specialize (K s Hs).
-  unfold stmt_ok in K. rewrite Forall_forall in K. exact (K _ Hn).
+  unfold stmt_ok in K. rewrite Forall_forall in K. split; intros Hn; exact (K _ Hn).
+Qed.
+
+(** the witness: table m.t, column c: serial -> enum m.e, qualifier q: the ALTER TABLE statement holds
+    the reference [RRaw e], written as the chain [e] -- not [q; e] -- and the change set is not [change_ok] *)
+Theorem C16_skeleton_refuted :
+  exists cs s n q, In s (plan_skel true cs) /\ In (RRaw n) (s_refs s) /\
+                   ref_chain (Some q) (RRaw n) = [n] /\ q <> [] /\ ~ Forall change_ok cs.
+Proof.
+  destruct skeleton_raw_witness as [s [H1 [H2 [H3 H4]]]].
+  exists w_raw, s, [101], [113]. repeat split; try assumption. discriminate.
 Qed.
 
 (** * 3. CheckChangesScope *)
@@ -420,6 +437,7 @@ Print Assumptions C16_replay_dev_name_irrelevant.
 Print Assumptions C16_replay_before_fix.
 Print Assumptions C16_skeleton_partial.
 Print Assumptions C16_skeleton_no_bare_reference.
+Print Assumptions C16_skeleton_refuted.
 Print Assumptions C16_skeleton_sequence_dropped.
 Print Assumptions C16_skeleton_sequence_added.
 Print Assumptions C16_skeleton_sequence_prefix.
@@ -641,3 +659,13 @@ Example ex_checkpoint :
   Planner_plan_exclude never (fun n => bytes_eqb n (rt_name t1)) (Some []) 0 n_dev n_app [] [t1; t2] [t2; t3] = PPlanned /\
   exclude_tabs (fun n => bytes_eqb n (rt_name t1)) [t1; t2] = [t2].
 Proof. repeat split; vm_compute; reflexivity. Qed.
+
+(* C16_skeleton_refuted / C16_skeleton_partial's hypothesis: serial -> enum is not change_ok, serial -> integer is;
+   what the statement looks like: ALTER TABLE q.t ... TYPE e  (the raw name is not an identifier chain) *)
+Example ex_skeleton_raw :
+  plan_obs true (Some q_) w_raw =
+    [ (false, h_alter_table, [[q_; [116]]], []); (true, h_alter_table, [[q_; [116]]], [[q_; seq_name [116] [99]]]);
+      (false, h_drop_sequence, [[q_; seq_name [116] [99]]], []);
+      (true, h_create_sequence, [[q_; seq_name [116] [99]]; [q_; [116]; [99]]], []) ] /\
+  Forall change_ok [RefSkeleton.ModifyTable w_raw_t [ModifyColumn [99] None None (Some []) None true false false]].
+Proof. split; [vm_compute; reflexivity|]. repeat constructor; intros; reflexivity. Qed.
